@@ -136,7 +136,7 @@ Section InclRings.
     { change (route_result join (set_incl true o) d r) with (route_result join (set_incl false o) d r).
       intros Hf Hg. rewrite Hf in Hg. injection Hg as Hg. rewrite Hg at 1. destruct f; cbn. apply rings_sub_refl. }
     destruct (_ || _); [|discriminate].
-    unfold Model.poly_result. cbn [inclInvalid set_incl negb].
+    unfold Model.poly_result, Model.poly_result_with. cbn [inclInvalid set_incl negb].
     set (steps := map (poly_step d (r_tags r)) (r_members r)).
     rewrite !andb_false_r, !andb_true_r.
     destruct (flat_map ps_outer steps) as [|[s w] rest] eqn:Houter; cbn [is_nil]; [discriminate|].
@@ -144,13 +144,13 @@ Section InclRings.
       snd (let mp0 := outer_polys join ring_of false outer in
            if is_nil mp0 && true then (flat_map ps_skips steps, None)
            else match mp_geom (add_inners join ring_of false mp0 (flat_map ps_inner steps)) with
-                | Some g => (flat_map ps_skips steps, Some (mk_feature (set_incl false o) d TRel (r_id r) (r_tags r) (existsb ps_taint steps) (r_meta r) g))
+                | Some g => (flat_map ps_skips steps, Some (mk_poly_feature (set_incl false o) d TRel (r_id r) (r_tags r) (existsb ps_taint steps) (r_meta r) g))
                 | None => (flat_map ps_skips steps, None)
                 end) = Some f ->
       snd (let mp0 := outer_polys join ring_of true outer in
            if is_nil mp0 && false then (flat_map ps_skips steps, None)
            else match mp_geom (add_inners join ring_of true mp0 (flat_map ps_inner steps)) with
-                | Some g => (flat_map ps_skips steps, Some (mk_feature (set_incl true o) d TRel (r_id r) (r_tags r) (existsb ps_taint steps) (r_meta r) g))
+                | Some g => (flat_map ps_skips steps, Some (mk_poly_feature (set_incl true o) d TRel (r_id r) (r_tags r) (existsb ps_taint steps) (r_meta r) g))
                 | None => (flat_map ps_skips steps, None)
                 end) = Some (with_geom f g) ->
       rings_sub (geom_rings (f_geom f)) (geom_rings g) = true).
@@ -159,14 +159,14 @@ Section InclRings.
       destruct (mp_geom (add_inners join ring_of false _ _)) as [g0|] eqn:Hg0; [|discriminate].
       destruct (mp_geom (add_inners join ring_of true _ _)) as [g1|] eqn:Hg1; [|discriminate].
       cbn [snd]. intros H1 H2. injection H1 as <-. injection H2 as H2.
-      cbn [f_geom mk_feature with_geom] in *. rewrite <- H2.
+      cbn [f_geom mk_feature mk_poly_feature with_geom] in *. rewrite <- H2.
       exact (multi_core outer _ g0 Hg0 g1 Hg1). }
     destruct rest as [|p rest].
     - destruct (fold_right Z.add 0 (map ps_cnt steps) =? 1).
       + (* old-style branch: the option is not consulted *)
         destruct (ring_invalid _); [discriminate|].
         destruct (has_interesting _ _); cbn [snd]; intros Hf Hg; injection Hf as <-; injection Hg as Hg;
-          cbn [f_geom mk_feature with_geom] in *; rewrite <- Hg; apply rings_sub_refl.
+          cbn [f_geom mk_feature mk_poly_feature with_geom] in *; rewrite <- Hg; apply rings_sub_refl.
       + intros Hf Hg. apply (Hgen (map fst [(s, w)]));
           [cbn zeta; rewrite ?andb_true_r; exact Hf|cbn zeta; rewrite ?andb_false_r; exact Hg].
     - intros Hf Hg. apply (Hgen (map fst ((s, w) :: p :: rest)));
